@@ -3,6 +3,65 @@ package mcp
 import (
 	"io"
 	"log/slog"
+	"net/http"
+	"strconv"
 )
 
 var quietLogger = slog.New(slog.NewTextHandler(io.Discard, nil))
+
+// framedWriter gives a recording http.ResponseWriter the framing rules of net/http's server: once
+// the header is fixed, a declared Content-Length is binding - a write that would exceed it fails
+// with http.ErrContentLength and delivers nothing, and a handler that returns having written less
+// leaves the client with a broken body (broken reports either).
+type framedWriter struct {
+	http.ResponseWriter
+	fixed    bool
+	declared int64 // -1: none
+	written  int64
+	refused  bool
+}
+
+func newFramedWriter(w http.ResponseWriter) *framedWriter {
+	return &framedWriter{ResponseWriter: w, declared: -1}
+}
+
+func (w *framedWriter) fix() {
+	if w.fixed {
+		return
+	}
+	w.fixed = true
+	if cl := w.Header().Get("Content-Length"); cl != "" {
+		if n, err := strconv.ParseInt(cl, 10, 64); err == nil && n >= 0 {
+			w.declared = n
+		}
+	}
+}
+
+func (w *framedWriter) WriteHeader(status int) {
+	if status >= 200 {
+		w.fix()
+	}
+	w.ResponseWriter.WriteHeader(status)
+}
+
+func (w *framedWriter) Write(p []byte) (int, error) {
+	w.fix()
+	if w.declared >= 0 && w.written+int64(len(p)) > w.declared {
+		w.refused = true
+		return 0, http.ErrContentLength
+	}
+	w.written += int64(len(p))
+	return w.ResponseWriter.Write(p)
+}
+
+func (w *framedWriter) Flush() {
+	w.fix()
+	if f, ok := w.ResponseWriter.(http.Flusher); ok {
+		f.Flush()
+	}
+}
+
+// broken: the client cannot read this response body to a clean end.
+func (w *framedWriter) broken() bool {
+	return w.refused || (w.declared >= 0 && w.written != w.declared)
+}
